@@ -10,7 +10,7 @@
   Props/C02FinalCurves.lean (gap (e): the computed curves of re-decoded sliders, `roundtrip_curves_partial`) and
   Props/C02FinalScroll.lean (gap (d): `ScrollDrivesSv` of decoded taiko / mania maps, `decoded_scrollDrivesSv`; false for out-of-order timing lines).
   Props/C02Capstone.lean — the CAPSTONE: `ExactLaws`, `DecodedDomain`, `PreservedEq`, `roundtrip_decoded_capstone` (one theorem about
-  decoded maps, every exclusion a named field), `roundtrip_statement_full`; Props/C02CapstoneToy.lean: non-vacuity on a decoded file; Props/C02CapstoneFalse.lean:
+  decoded maps, every exclusion a named field), `roundtrip_statement_full`; Props/C02CapstoneToy.lean / C02CapstoneToyRt.lean: non-vacuity on a decoded file; Props/C02CapstoneFalse.lean:
   `roundtrip_statement_full_false` (the statement without the domain is refuted on the F16 file).
   All in namespace `Rosu.C02`.
 -/
@@ -34,4 +34,5 @@ import RosuModel.Props.C02FinalScrollToy
 import RosuModel.Props.C02FinalScrollExact
 import RosuModel.Props.C02Capstone
 import RosuModel.Props.C02CapstoneToy
+import RosuModel.Props.C02CapstoneToyRt
 import RosuModel.Props.C02CapstoneFalse
